@@ -227,6 +227,7 @@ def reflectType (abi : ABI) : Nat → Name → Except RErr GoTy
     match allPrims.find? (fun p => p.name == s) with
     | some p => .ok (.prim p)
     | none =>
+    if s == boolName then .ok .bool else
     if s == addressName then .ok .address else
     match slicePrefix? s with
     | some rest => (reflectType abi fuel rest).map .slice
